@@ -334,9 +334,16 @@ def r5_bounds_merge(repo=None):
     return r
 
 
+def r6_existence_test_in_current_subdir(repo=None):
+    """The 'never replace a finalized file' test (R3) looks in <directory>/<sub_directory>/: it protects earlier sessions only
+    if that field names the sub-directory of the file being created (C04.R8)."""
+    from . import c04
+    return c04.r8_remembered_subdir_is_current(repo, rid="C11.R6")
+
+
 def rules(repo=None):
     return [lambda: r1_compare_all(repo), lambda: r2_refused_session_no_effect(repo), lambda: r3_never_replace(repo),
-            lambda: r4_reader_all_directories(repo), lambda: r5_bounds_merge(repo)]
+            lambda: r4_reader_all_directories(repo), lambda: r5_bounds_merge(repo), lambda: r6_existence_test_in_current_subdir(repo)]
 
 
 EXPLANATION = (
@@ -346,7 +353,7 @@ EXPLANATION = (
     "before the comparison contain no persistent effect. R3: access(final name) dominates the H5F_ACC_EXCL create and its "
     "refusal returns an error without touching has_failure. R4: read/get_continuous_blocks/get_bounds iterate over the "
     "whole top-level directory list with no early exit. R5: get_bounds merges the first and the last sample of each directory with two "
-    "independent comparisons. Does NOT decide union/bounds arithmetic across sessions.")
+    "independent comparisons. R6 (= C04.R8): the existence test and the create use the sub-directory computed for this file (the remembered field is set or compared on every path). Does NOT decide union/bounds arithmetic across sessions.")
 TECHNIQUE = ("clang JSON AST + Python ast; attribute comparison table; effect-free prefix by effect summaries; dominance of the existence test; CFG must-pass in the reader's directory loops")
 ASSUMPTIONS = ["H5F_ACC_EXCL fails on an existing file", "the same file period is never recorded in two directories (format rule)"]
 FILES = [C_LIB, C_EXT, "python/digital_rf/digital_rf_hdf5.py"]
